@@ -297,9 +297,7 @@ def divSplitDict (state : Val) : Except Err (Val × Val) :=
   match state with
   | .none => .ok (.dict [], .dict [])
   | .dict kvs => .ok (.dict (kvs.drop (kvs.length / 2)), .dict (kvs.take (kvs.length / 2)))
-  | .int _ => .error .typeError
-  | .bool _ => .error .typeError
-  | _ => .error .attributeError
+  | _ => .error .attributeError      -- `state.items()` is evaluated first
 
 inductive DFn where
   | binomial | set | split | splitDict | zero | noDivide | setValue | null
